@@ -45,6 +45,24 @@ def check_like_invariance(multiset):
             except Exception as e:  # noqa
                 a = "raise:" + type(e).__name__
             answers.setdefault(a, text)
+    if len(answers) == 1 and len(multiset) <= 3:
+        # signed sums: every sign vector with a subtraction, every order of the signed addends that starts with an added one
+        n = len(multiset)
+        for signs in itertools.product("+-", repeat=n):
+            if "-" not in signs:
+                continue
+            signed = {}
+            for perm in set(itertools.permutations(list(zip(signs, multiset)))):
+                if perm[0][0] == "-":
+                    continue
+                text = perm[0][1] + "".join(f" {sg} {t}" for sg, t in perm[1:])
+                try:
+                    a = bool(has_like_terms(parse(text)))
+                except Exception as e:  # noqa
+                    a = "raise:" + type(e).__name__
+                signed.setdefault(a, text)
+            if len(signed) > 1:
+                return [("has_like_terms-depends-on-order-of-signed-addends", "; ".join(f"{t!r} -> {a}" for a, t in signed.items()))], len(signed)
     if len(answers) > 1:
         return [("has_like_terms-depends-on-order-or-grouping", "; ".join(f"{t!r} -> {a}" for a, t in answers.items()))], len(answers)
     return [], 1
@@ -410,7 +428,7 @@ def run(tier, seed):
         "evaluations": total,
         "distinct_nontrivial": acc.n["nontrivial"] + acc.n["predicate_trees"],
         "rule": f"(1) every multiset of 2..{nt} addends from {len(TERMS)} terms plus every multiset of 2..3 addends from these and {len(NONTERMS)} non-term / unusual addends {NONTERMS} "
-                f"with at least one of the latter, has_like_terms compared over ALL permutations x ALL groupings; "
+                f"with at least one of the latter, has_like_terms compared over ALL permutations x ALL groupings, and over all orders of the signed addends for every sign vector with a subtraction; "
                 f"(2) all ordered pairs of terms for terms_are_like (reflexive, symmetric; standalone and as addends); (3) every triple over "
                 f"coefficients {COEFS} x variables {VARS} x exponents {EXPS}: text -> get_term_ex, make_term value and decomposition; "
                 f"(4) factor(n) for every n <= {NF} against the divisor table; (5) every predicate on every uniform / term-structured "
